@@ -135,6 +135,7 @@ func cmdCheck(args []string) int {
 	noEvidence := fs.Bool("no-evidence", false, "")
 	writeBaseline := fs.Bool("write-baseline", false, "record the set of discharged obligations")
 	verbose := fs.Bool("v", false, "")
+	outdir := fs.String("outdir", "", "directory for query / replay files (default <verif>/out)")
 	fs.Parse(args)
 	if *tier == "" {
 		*tier = os.Getenv("VERIF_TIER")
@@ -160,7 +161,10 @@ func cmdCheck(args []string) int {
 			props = append(props, fmt.Sprintf("C%02d", i))
 		}
 	}
-	cc := &checkCtx{p: p, tier: *tier, verif: *verif, results: map[string]*unitResult{}, solverWins: map[string]int{}}
+	cc := &checkCtx{p: p, tier: *tier, verif: *verif, results: map[string]*unitResult{}, solverWins: map[string]int{}, outRoot: *outdir}
+	if *outdir != "" {
+		cc.noReplay = true // development runs against scratch copies
+	}
 	cc.raceTmo = 20 * time.Second
 	if *tier == "thorough" {
 		cc.raceTmo = 60 * time.Second
